@@ -80,6 +80,8 @@ def strategy(tier):
       precomputed=st.booleans(),
       res_from=st.sampled_from(["model", "arg"]),
       fovy_per_world=st.booleans(),
+      # a tiny flex far outside the scene: its primitives share the scene BVH with the geoms (strides, refit), no pixel should ever see it
+      flex=st.sampled_from([False, False, True]),
     )
   )
 
@@ -212,6 +214,10 @@ def check(case, rec):
     cams.append(dict(host=c["host"], attrs=_cam_attrs(c, W, Hh, has_hf, centers)))
     res.append((W, Hh))
   xml = X.build(geoms, case["scene_seed"], cameras=cams, extent=0.6, visual=_VISUAL, upright_hfield=True)
+  if case.get("flex") and not has_hf:  # (put_model rejects a flex next to a height field)
+    fx = ('<worldbody><flexcomp name="fx" type="grid" count="3 3 1" spacing="0.01 0.01 0.01" dim="2" mass="0.01" radius="0.001" pos="300 300 300">'
+          '<contact selfcollide="none" contype="0" conaffinity="0"/></flexcomp></worldbody>')
+    xml = xml.replace("</mujoco>", fx + "</mujoco>")
   mjm = H.compile_xml(xml)
   nworld = case["nworld"]
   ncam = mjm.ncam
@@ -290,7 +296,7 @@ def check(case, rec):
   rendered = [g for g in range(mjm.ngeom) if gg[min(5, max(0, mjm.geom_group[g]))]]
   cull = bool(case["cull"])
   nt_case = False
-  rec.cls(f"menu:{case['menu']}", f"nworld:{nworld}", f"cull:{cull}", f"precomputed:{precomputed}", f"ncam:{ncam}", f"groups:{'all' if len(groups) == 6 else 'subset'}", f"unrendered-geoms:{len(rendered) < mjm.ngeom}")
+  rec.cls(f"flex:{bool(case.get('flex')) and not has_hf}", f"menu:{case['menu']}", f"nworld:{nworld}", f"cull:{cull}", f"precomputed:{precomputed}", f"ncam:{ncam}", f"groups:{'all' if len(groups) == 6 else 'subset'}", f"unrendered-geoms:{len(rendered) < mjm.ngeom}")
 
   for i, c in enumerate(case["cams"]):
     ci = cid_of[i]
@@ -394,6 +400,9 @@ def check(case, rec):
           tol = 0.0
         got_d = float(rd[w, int(py[k]), int(px[k])])
         got_g, got_t = int(rs[w, int(py[k]), int(px[k]), 0]), int(rs[w, int(py[k]), int(px[k]), 1])
+        if got_t == int(mujoco.mjtObj.mjOBJ_FLEX):
+          rec.boundary_skipped += 1  # the far-away flex itself (mj_ray does not intersect flexes): not judged
+          continue
         nj += 1
         # label of recorded findings, used only when this pixel mismatches
         sig_known = None
